@@ -33,6 +33,13 @@ WellFormed == /\ E.topic \in Topics
               /\ DOMAIN E.key = CachesOf(E.topic)
               /\ DOMAIN E.pre = CachesOf(E.topic)
 
+\* the harness's claim about subnet membership is recomputed from ALL committee seats of the validator / aggregator
+SeatsAgree ==
+    CASE E.topic = "syncmsg" -> Msg.cond["subnet_valid"] = SubnetValid(ToSet(E.seats), E.subsize, E.subnet)
+      [] E.topic = "contrib" /\ Msg.cond["subcommittee_index"] ->
+            Msg.cond["aggregator_in_subcommittee"] = SubnetValid(ToSet(E.seats), E.subsize, E.subnet)
+      [] OTHER -> TRUE
+
 PreAgrees == \A k \in CachesOf(E.topic) : (E.pre[k] = 1) = (Msg.key[k] \ seen[k] # {})
 
 FailNames(m) == {r.n : r \in Failing(seen, m)}
@@ -126,6 +133,9 @@ DoMsg ==
                 v == E.verdict
             IN  IF E.out # "ok"
                 THEN Report("MISMATCH", "outcome " \o E.out, Allowed(seen, m)) /\ Adopt(marks)
+                ELSE IF ~SeatsAgree
+                THEN Report("MISMATCH", "subnet claim differs from the subnets of all committee seats",
+                            <<E.seats, E.subsize, E.subnet>>) /\ Adopt(marks)
                 ELSE IF ~PreAgrees
                 THEN Report("MISMATCH", "harness cache state differs from the model", seen) /\ Adopt(marks)
                 ELSE IF Correct(seen, m, v, marks)
